@@ -282,7 +282,7 @@ func parseGSUBLookup(src []byte, lookupType uint16) (out GSUBLookup, err error) 
 	default:
 		err = fmt.Errorf("invalid GSUB Loopkup type %d", lookupType)
 	}
-	return out, err
+	return nullAsEmptyGSUB(out), err
 }
 
 // AsGSUBLookups returns the GSUB lookup subtables.
@@ -424,7 +424,7 @@ func parseGPOSLookup(src []byte, lookupType uint16) (out GPOSLookup, err error) 
 	default:
 		err = fmt.Errorf("invalid GPOS Loopkup type %d", lookupType)
 	}
-	return out, err
+	return nullAsEmptyGPOS(out), err
 }
 
 // AsGPOSLookups returns the GPOS lookup subtables
